@@ -250,3 +250,13 @@ Theorem C20_api_printed : forall ol ot l,
   match ApiProofs.classes l [] with [] => ApiOk [] | [a] => ApiOk a | _ => ApiMesonErr end.
 Proof. exact ApiProofs.api_printed. Qed.
 Print Assumptions C20_api_printed.
+
+(* ---- a manifest Dependency object (accepts_version / api caches, update_version) ---- *)
+(* whatever was read or updated before, a read is answered by the requirement of the
+   last update_version (or the initial one): acceptance is the rule of the requirement
+   in force *)
+Theorem C20_dependency_reads_by_requirement_in_force : forall req ops o x,
+  dep_read (GlueProofs.last_update req ops) o = Some x ->
+  dep_run req (ops ++ [o]) = dep_run req ops ++ [x].
+Proof. exact GlueProofs.dep_reads_by_requirement_in_force. Qed.
+Print Assumptions C20_dependency_reads_by_requirement_in_force.
